@@ -1,15 +1,12 @@
 (* C06 — no input text can crash the library.  Property theorems only. *)
 From Coq Require Import List.
-From Exmex.Model Require Import Base Lexer.
-From Exmex.Proofs Require Import Totality.
+From Exmex.Model Require Import Base Lexer Flat Deep Convert.
+From Exmex.Proofs Require Import Totality FlatTotal DeepTotal CompileCorrect ConvertCompose.
 
-(* `_partial`: the tokenizer and the precondition check, for EVERY text, operator table, data type and literal
-   matcher, return a token list / unit or an error value; no panic site of parser.rs (find_var_index aside, which is
-   called by the expression builders) is reachable: the replace at the comma position is in range.
-   Missing for the full statement: the same for make_expression (flat and deep), compile, the conversions, unparse
-   and partial (their panic sites are explicit `Panic` outcomes in the model; the correspondence runs every entry
-   point and follow-up call under catch_unwind, exhaustively for short strings); stack depth is a runtime fact
-   (child processes, DESIGN.md C06, known finding F10). *)
+(* In the model every panic site of the Rust code (index out of bounds, unwrap on None, usize underflow) is an explicit
+   `Panic site` outcome.  The theorems say that no text reaches one. *)
+
+(* 1. tokenizer and precondition check: every text, operator table, data type and literal matcher *)
 Theorem C06_tokenizer_total_partial :
   forall (D : Type) (C : carrier D) (tb : optable) (is_literal : str -> option nat) (text : str) (site : nat),
   tokenize C tb is_literal text <> Panic site.
@@ -18,5 +15,33 @@ Theorem C06_preconditions_total_partial :
   forall (D : Type) (tb : optable) (ts : list (token D)) (site : nat), check_preconditions tb ts <> Panic site.
 Proof. exact @check_preconditions_total. Qed.
 
+(* 2. the flat parsing entry points, with and without constant folding *)
+Theorem C06_flat_parse_never_panics :
+  forall (D : Type) (C : carrier D) (tb : optable) (is_literal : str -> option nat) (text : str) (site : nat),
+  parse C tb true is_literal text <> Panic site /\ parse_wo_compile C tb true is_literal text <> Panic site.
+Proof. intros. split; [apply parse_no_panic|apply parse_wo_compile_no_panic]. Qed.
+
+(* 3. every flat expression obtained this way evaluates to a value on every slice of the right length: no index out of
+   bounds in the tracker loop for any application order, no missing variable *)
+Theorem C06_parsed_flat_expressions_evaluate :
+  forall (D : Type) (C : carrier D) (tb : optable) (is_literal : str -> option nat) (text : str) (fx : flatex D) (vals : list D),
+  parse C tb true is_literal text = Ok fx \/ parse_wo_compile C tb true is_literal text = Ok fx ->
+  length vals = length (fvars fx) -> exists v, eval_flat C fx vals = Ok v.
+Proof. exact @parsed_evaluates. Qed.
+
+(* 4. the deep parsing entry point *)
+Theorem C06_deep_parse_never_panics :
+  forall (D : Type) (C : carrier D) (tb : optable) (is_literal : str -> option nat) (text : str) (site : nat),
+  parse_deep C tb is_literal text <> Panic site.
+Proof. exact @parse_deep_no_panic. Qed.
+
+(* `_partial` in the names above and outside these theorems: conversion, unparse, operator listings and partial of
+   SLOPPY parsed expressions (for well-formed trees and for every flat expression the parser accepts the conversions
+   are in C03's theorems), the value-typed and statement entry points, and stack depth, which is a runtime fact
+   (child processes with an 8 MiB stack, DESIGN.md C06, known finding F10).  All of them are exercised by the
+   correspondence under catch_unwind, exhaustively for short strings over the piece alphabets. *)
 Print Assumptions C06_tokenizer_total_partial.
 Print Assumptions C06_preconditions_total_partial.
+Print Assumptions C06_flat_parse_never_panics.
+Print Assumptions C06_parsed_flat_expressions_evaluate.
+Print Assumptions C06_deep_parse_never_panics.
